@@ -190,9 +190,16 @@ def run_property(prop, tier="quick", seed=0, unit_filter=None, nproc=None, extra
         grouped.setdefault(unit_clause, []).append((ob, res))
     reported = []
     frame_searches = 0
+    frame_search_time = 0.0
+    frame_search_budget = 1200 if tier == "quick" else 7200
     for key, items in sorted(grouped.items()):
         if key.startswith("frame-write:"):
             frame_searches += 1
+            if frame_search_time > frame_search_budget:
+                # the interference searches of this run have used their time: the remaining written locations are listed
+                # as undecided (a failed frame obligation without a demonstration is never a pass and never a violation)
+                undecided.append(dict(name=items[0][0]["name"], reason="frame condition fails; interference search not run (the searches of this run used their %d s)" % frame_search_budget))
+                continue
             if frame_searches > 4 and any(not r["known"] for r in reported):
                 # further written locations of the same run: one reproduced interference is enough to fail the check
                 print("  (frame failure for %s not searched individually: %d instance(s))" % (key[12:][:120], len(items)))
@@ -232,7 +239,10 @@ def run_property(prop, tier="quick", seed=0, unit_filter=None, nproc=None, extra
             status, out = 1, "no model could be extracted"
             suffix = " no-failing-input-found"
         else:
+            t_rep = time.time()
             status, out = run_replay(path, timeout=900 if "custom" in extra else 60)
+            if key.startswith("frame-write:"):
+                frame_search_time += time.time() - t_rep
             suffix = ""
             if status == 124 and redirect is None and "custom" not in extra:
                 # this instance cannot be replayed in reasonable time: try other instances of the same obligation
